@@ -57,7 +57,7 @@ fn value(idx: u64, rng: &mut Rng, mon: &mut Mon) {
     let depth = 1 + rng.usize(3);
     let axial = rng.bool(0.5);
     let layers = gen_stack(rng, depth, axial, &["Tool", "Base", "Frame"]);
-    let kin = build(Arc::new(OPWKinematics::new(to_params(&rp))), &layers);
+    let kin = build(Arc::new(make_solver(rng, &rp)), &layers);
     let q = if rng.bool(0.2) { joints_resting(rng, PI) } else { joints_uniform(rng, PI) };
     let target = ref_forward(&rp, &layers, &q);
     let j6 = *rng.pick(&[0.0, 1.0, -PI, q[5]]);
